@@ -114,6 +114,36 @@ def rule_kw(ctx: Ctx, scope: Iterable[str], rule: str = "R-KW", min_sites: int =
 
 
 # ----------------------------------------------------------------------------
+# R-ARITY
+# ----------------------------------------------------------------------------
+def rule_arity(ctx: Ctx, scope: Iterable[str], rule: str = "R-ARITY", min_sites: int = 100) -> None:
+    """Every call whose callee resolves uniquely binds all required parameters and passes no surplus positional
+    (what a type checker would report; none is available here).  Large parts of the package (analysis tools, dataset
+    loading) are not executed by the test suite, so a call that would raise TypeError can survive it."""
+    n_sites = 0
+    for fi in scope_functions(ctx, scope):
+        for call in calls_in(fi.node):
+            cands, kind = ctx.resolver.resolve_call(call, fi, count=False)
+            if kind != "unique":
+                continue
+            callee = cands[0]
+            if any(d in ("property", "overload") for d in callee.decorators) or callee.is_abstract:
+                continue
+            b = bind(call, callee)
+            n_sites += 1
+            missing = list(b.missing)
+            surplus = [] if callee.node.args.vararg is not None else b.extra_pos
+            if missing or surplus:
+                why = (f"required parameter(s) {missing} of {short(callee.qualname)} are not bound" if missing else "") + (
+                    f"{'; ' if missing else ''}{len(surplus)} positional argument(s) too many for {short(callee.qualname)}" if surplus else "")
+                ctx.violate(rule, short(fi.qualname), f"{callee.name}:{','.join(missing) or 'surplus'}", why + " (TypeError when the call is executed)", fi=fi, node=call,
+                            expected="all required parameters bound, no surplus positional", found=ast.unparse(call)[:200])
+            else:
+                ctx.ok(rule, short(fi.qualname), f"{callee.name}@{_site_key(call)}")
+    ctx.require(n_sites >= min_sites, f"{rule}: only {n_sites} resolved call sites (hand-confirmed minimum {min_sites})")
+
+
+# ----------------------------------------------------------------------------
 # R-KW-splat
 # ----------------------------------------------------------------------------
 SPLAT_ALLOW: Dict[Tuple[str, str], str] = {
